@@ -6,6 +6,7 @@ globals are not visible to nested defs there.
 Stubs installed (each is part of every claim, see DESIGN 2.1):
  * format(obj) of a plain user object -> str(obj) (CrossHair's default deep-copies
    the pool, its loop and sockets to "realise" it and hangs);
+ * (VERIF_REAL_LRU_CACHE=1, set by the runner for every process) CrossHair's "lru_cache has no cache" stub is removed;
  * format(symbolic int) -> opaque placeholder (CrossHair's str(int) model forks
    once per digit count, without end for unbounded ints). Only exception
    *messages* ever contain it.
@@ -45,6 +46,12 @@ def _install():
         return _orig(obj, format_spec)
 
     core._PATCH_REGISTRATIONS[format] = _format
+
+    if os.environ.get("VERIF_REAL_LRU_CACHE") == "1":
+        # CrossHair calls through functools.lru_cache wrappers as if they had no cache, which hides any defect that
+        # consists of remembering something (seeded change C17-a).  The runner sets this for every process.
+        from functools import _lru_cache_wrapper
+        core._PATCH_REGISTRATIONS.pop(_lru_cache_wrapper.__call__, None)
 
     path = os.environ.get("VERIF_PATHLOG")
     stats = {"checks": 0, "solver_s": 0.0}
